@@ -121,7 +121,7 @@ PROPS = {
         trusted_base=[KERNEL, CORR,
                       "8-bit rules: exact integer model lean/LdpcV/Model/ArithI8.lean (i8/i16 as Int with explicit overflow checks); the correction table is a "
                       "literal in the model and is compared entry by entry with the table read from the Debug text of every Rust arithmetic object",
-                      "float rules (phi, tanh, min*-approx, A-Min* in f32/f64): real-number semantics (C04Real) and, for the min*-approx, A-Min* and tanh rules, the STANDARD MODEL "
+                      "float rules (phi, tanh, min*-approx, A-Min* in f32/f64): real-number semantics (C04Real) and, for all four rule families, the STANDARD MODEL "
                       "of floating-point arithmetic (C04Round: every + - * / returns the exact result times (1+d), |d| <= u; exp / ln_1p relative accuracy e; "
                       "negation, abs, max, min, comparisons exact; FpModel is a hypothesis structure, no axiom). That IEEE-754 round-to-nearest satisfies this model away "
                       "from overflow / subnormal underflow / NaN, and the accuracy e of the platform's libm, are TRUSTED, not proved"],
@@ -138,7 +138,8 @@ PROPS = {
         assumptions=COMMON_ASSUME,
         partial=["IEEE rounding: bounded by theorems (C04Round, standard model, no overflow/underflow) for the min*-approx rule (one message per neighbour, exact sign "
                  "rule, magnitude <= b^(d-2) x smallest other, value within (d-2)*eta(B) of the real rule), the A-Min* rule (within (d-1)*etaF(B+1)) and the tanh rule "
-                 "(tanh domain, under the hypothesis that the rounded product stays below 1); for the phi rule rounding is covered by the tanh-domain comparison only",
+                 "(tanh domain, under the hypothesis that the rounded product stays below 1) and the phi rule (tanh domain, inputs and partial sums above the 1e-30 guard); "
+                 "overflow / underflow / NaN regimes and whole-decoder float runs are outside these theorems",
                  "'within accumulated table rounding' is proved with explicit constants (C04Track): (steps)/2 units for the approximate fold, (steps) units for the "
                  "exact-form fold, (d-2)/2 resp. (d-1) units for the emitted messages of the whole rules against the same rule text at R on inputs / 8; with "
                  "partial hard limiting the bound is stated for emitted magnitudes below 100 only (the documented promotion)"],
